@@ -311,7 +311,8 @@ struct Agg {
     n_skipped: u64,
     samples: Vec<Value>,
     sample_count: BTreeMap<String, u32>,
-    violations: Vec<(String, u64, Violation, Value)>,
+    /// per (oracle, signature) class: occurrences and the witness with the smallest (family, index)
+    vclasses: BTreeMap<(String, String), (u64, (String, u64, Violation, Value))>,
     n_violating_cases: u64,
     known: BTreeMap<String, (u64, String)>,
 }
@@ -485,7 +486,11 @@ pub fn main(spec: Spec) -> ! {
             let slots = slots.clone();
             std::thread::Builder::new()
                 .stack_size(64 << 20)
-                .spawn(move || loop {
+                .spawn(move || {
+                  let mut local = Agg::default();
+                  let mut pending: u64 = 0;
+                  let mut last_merge = Instant::now();
+                  loop {
                     let j = next.fetch_add(1, Ordering::SeqCst);
                     if j >= jobs.len() {
                         break;
@@ -507,8 +512,17 @@ pub fn main(spec: Spec) -> ! {
                         // the watchdog already accounted for this case as inconclusive(timeout)
                         break;
                     }
-                    absorb(&agg, c);
-                    done.fetch_add(1, Ordering::SeqCst);
+                    absorb(&mut local, c);
+                    pending += 1;
+                    if pending >= 512 || last_merge.elapsed() > Duration::from_millis(500) {
+                        merge(&mut agg.lock().unwrap(), std::mem::take(&mut local));
+                        done.fetch_add(pending, Ordering::SeqCst);
+                        pending = 0;
+                        last_merge = Instant::now();
+                    }
+                  }
+                  merge(&mut agg.lock().unwrap(), std::mem::take(&mut local));
+                  done.fetch_add(pending, Ordering::SeqCst);
                 })
                 .expect("spawn");
         }
@@ -550,8 +564,8 @@ pub fn main(spec: Spec) -> ! {
     finish(&spec, tier, seed, a, &known, wall, any_exh && exhaustive_all, any_exh);
 }
 
-fn absorb(agg: &Arc<Mutex<Agg>>, c: Case) {
-    let mut a = agg.lock().unwrap();
+fn absorb(a: &mut Agg, c: Case) {
+    let pre_hash = if c.nontrivial && c.status == Status::Held { Some(c.hash.unwrap_or_else(|| hash_str(&c.descr.to_string()) ^ hash_str(c.family))) } else { None };
     a.evaluations += 1;
     let e = a.per_family.entry(c.family.to_string()).or_insert((0, 0));
     e.0 += 1;
@@ -559,16 +573,32 @@ fn absorb(agg: &Arc<Mutex<Agg>>, c: Case) {
         e.1 += 1;
     }
     for (k, v) in &c.checks {
-        *a.checks.entry(k.clone()).or_insert(0) += v;
+        match a.checks.get_mut(k) {
+            Some(x) => *x += v,
+            None => {
+                a.checks.insert(k.clone(), *v);
+            }
+        }
     }
     for (k, v) in &c.worst {
-        let e = a.worst.entry(k.clone()).or_insert(0.0);
-        if *v > *e {
-            *e = *v;
+        match a.worst.get_mut(k) {
+            Some(x) => {
+                if *v > *x {
+                    *x = *v
+                }
+            }
+            None => {
+                a.worst.insert(k.clone(), *v);
+            }
         }
     }
     for b in &c.buckets {
-        *a.buckets.entry(b.clone()).or_insert(0) += 1;
+        match a.buckets.get_mut(b) {
+            Some(x) => *x += 1,
+            None => {
+                a.buckets.insert(b.clone(), 1);
+            }
+        }
     }
     match &c.status {
         Status::Held => {}
@@ -583,9 +613,8 @@ fn absorb(agg: &Arc<Mutex<Agg>>, c: Case) {
             *a.skipped.entry(r.clone()).or_insert(0) += 1;
         }
     }
-    if c.nontrivial && c.status == Status::Held {
+    if let Some(h) = pre_hash {
         a.nontrivial_total += 1;
-        let h = c.hash.unwrap_or_else(|| hash_str(&c.descr.to_string()) ^ hash_str(c.family));
         a.distinct.insert(h);
     }
     let sc = a.sample_count.entry(c.family.to_string()).or_insert(0);
@@ -596,9 +625,77 @@ fn absorb(agg: &Arc<Mutex<Agg>>, c: Case) {
     }
     if !c.violations.is_empty() {
         a.n_violating_cases += 1;
+        let mut seen: Vec<(String, String)> = Vec::new();
         for v in c.violations {
-            if a.violations.len() < 20000 {
-                a.violations.push((c.family.to_string(), c.index, v, c.descr.clone()));
+            let key = (v.oracle.clone(), v.signature.clone());
+            if seen.contains(&key) {
+                continue;
+            }
+            seen.push(key.clone());
+            let wit = (c.family.to_string(), c.index, v, c.descr.clone());
+            match a.vclasses.get_mut(&key) {
+                Some(e) => {
+                    e.0 += 1;
+                    if (wit.0.as_str(), wit.1) < (e.1 .0.as_str(), e.1 .1) {
+                        e.1 = wit;
+                    }
+                }
+                None => {
+                    a.vclasses.insert(key, (1, wit));
+                }
+            }
+        }
+    }
+}
+
+fn merge(g: &mut Agg, l: Agg) {
+    g.evaluations += l.evaluations;
+    g.nontrivial_total += l.nontrivial_total;
+    g.n_inconclusive += l.n_inconclusive;
+    g.n_skipped += l.n_skipped;
+    g.n_violating_cases += l.n_violating_cases;
+    g.distinct.extend(l.distinct);
+    for (k, v) in l.checks {
+        *g.checks.entry(k).or_insert(0) += v;
+    }
+    for (k, v) in l.worst {
+        let e = g.worst.entry(k).or_insert(0.0);
+        if v > *e {
+            *e = v;
+        }
+    }
+    for (k, v) in l.buckets {
+        *g.buckets.entry(k).or_insert(0) += v;
+    }
+    for (k, v) in l.per_family {
+        let e = g.per_family.entry(k).or_insert((0, 0));
+        e.0 += v.0;
+        e.1 += v.1;
+    }
+    for (k, v) in l.inconclusive {
+        *g.inconclusive.entry(k).or_insert(0) += v;
+    }
+    for (k, v) in l.skipped {
+        *g.skipped.entry(k).or_insert(0) += v;
+    }
+    for s in l.samples {
+        let fam = s["family"].as_str().unwrap_or("").to_string();
+        let sc = g.sample_count.entry(fam).or_insert(0);
+        if *sc < 2 {
+            *sc += 1;
+            g.samples.push(s);
+        }
+    }
+    for (k, (n, wit)) in l.vclasses {
+        match g.vclasses.get_mut(&k) {
+            Some(e) => {
+                e.0 += n;
+                if (wit.0.as_str(), wit.1) < (e.1 .0.as_str(), e.1 .1) {
+                    e.1 = wit;
+                }
+            }
+            None => {
+                g.vclasses.insert(k, (n, wit));
             }
         }
     }
@@ -610,41 +707,39 @@ fn matches(k: &Known, v: &Violation) -> bool {
 
 fn finish(spec: &Spec, tier: Tier, seed: u64, mut a: Agg, known: &[Known], wall: f64, exhaustive: bool, any_exh: bool) -> ! {
     let dir = verif_dir();
-    let mut unlisted: Vec<(String, u64, Violation, Value)> = Vec::new();
-    for (fam, idx, v, d) in std::mem::take(&mut a.violations) {
+    let mut unlisted: Vec<(String, u64, Violation, Value, u64)> = Vec::new();
+    for (_key, (n, (fam, idx, v, d))) in std::mem::take(&mut a.vclasses) {
         if let Some(k) = known.iter().find(|k| matches(k, &v)) {
             let e = a.known.entry(format!("{} / {}", k.oracle, k.signature)).or_insert((0, k.what.clone()));
-            e.0 += 1;
+            e.0 += n;
         } else {
-            unlisted.push((fam, idx, v, d));
+            unlisted.push((fam, idx, v, d, n));
         }
     }
     for (k, (n, what)) in &a.known {
         println!("KNOWN-FINDING: property={} {} [{}] ({} occurrences this run)", spec.property, what, k, n);
     }
-    // replay files: one per (oracle, signature) class, at most 25 classes, smallest index first
-    unlisted.sort_by(|x, y| (x.2.oracle.clone(), x.2.signature.clone(), x.1).cmp(&(y.2.oracle.clone(), y.2.signature.clone(), y.1)));
+    // replay files: one per (oracle, signature) class (the witness with the smallest index), at most 40
     let mut classes: BTreeMap<(String, String), u64> = BTreeMap::new();
     let mut violation_lines = 0;
     let _ = std::fs::create_dir_all(format!("{}/replays/{}", dir, spec.property));
-    for (fam, idx, v, d) in &unlisted {
-        let key = (v.oracle.clone(), v.signature.clone());
-        let n = classes.entry(key).or_insert(0);
-        *n += 1;
-        if *n > 1 || violation_lines >= 25 {
+    let mut n_unlisted: u64 = 0;
+    for (fam, idx, v, d, n) in &unlisted {
+        classes.insert((v.oracle.clone(), v.signature.clone()), *n);
+        n_unlisted += *n;
+        if violation_lines >= 40 {
             continue;
         }
         let path = format!("{}/replays/{}/{}-{}-{}-{}.json", dir, spec.property, seed, tier.name(), fam, idx);
         let rep = json!({
             "property": spec.property, "seed": seed, "tier": tier.name(), "family": fam, "index": idx,
-            "oracle": v.oracle, "signature": v.signature, "detail": v.detail, "case": d,
+            "oracle": v.oracle, "signature": v.signature, "detail": v.detail, "case": d, "occurrences_of_this_class": n,
         });
         let _ = std::fs::write(&path, serde_json::to_string_pretty(&rep).unwrap());
         println!("VIOLATION property={} replay={}", spec.property, path);
-        println!("  oracle={} signature={} family={} index={}\n  {}", v.oracle, v.signature, fam, idx, v.detail.replace('\n', " "));
+        println!("  oracle={} signature={} family={} index={} occurrences={}\n  {}", v.oracle, v.signature, fam, idx, n, v.detail.replace('\n', " "));
         violation_lines += 1;
     }
-    let n_unlisted = unlisted.len() as u64;
     let distinct = a.distinct.len() as u64;
     let incon_frac = if a.evaluations > 0 { a.n_inconclusive as f64 / a.evaluations as f64 } else { 1.0 };
     let mut broken: Vec<String> = Vec::new();
